@@ -22,7 +22,7 @@ RULE = ('optional keywords {$TIMESTEP, TIMETICKS, $BTIM, $ETIM, $DATE, $PnV, $Pn
         'more draws; non-trivial = at least one ill-formed keyword or a vendor fallback in play; distinct = digest(file)')
 ASSUMPTIONS = ['a two-digit-year date that fits both dd-mmm-yy and yy-mmm-dd is read as the standard dd-mmm-yy; nonstandard yy-mmm-dd dates are generated with yy > 31',
                'unparseable $TIMESTEP: absent time step or the legacy TIMETICKS value are both accepted',
-               '1/60 s fractions compared within 1 microsecond', 'zero-event files with a time channel: duration not judged']
+               '1/60 s fractions compared within 1 microsecond', 'zero-event files with a time channel: the value of the duration is not judged, only that reading it does not raise']
 MIN_CHECKS = {'quick': 12000, 'thorough': 300000}
 REQUIRED_COUNTERS = ['chk:load', 'chk:time', 'chk:duration', 'chk:per-channel']
 
@@ -234,6 +234,8 @@ def check_against_text(ctx, cid, s, text, where):
         ctx.note('ambiguous date or leap second in a real file (not judged)')
     tch = [i for i, c in enumerate(exp['channels']) if c is not None and c.lower() == 'time']
     a = core.attempt(lambda: s.acquisition_time)
+    if len(tch) == 1 and s.shape[0] == 0:
+        ctx.check(not a.raised, 'duration-raises', cid, where=where, events=0, exc=core.exc_str(a.exc) if a.raised else None)
     if len(tch) <= 1 and (not tch or s.shape[0] > 0):
         if ctx.check(not a.raised, 'duration-raises', cid, where=where, exc=core.exc_str(a.exc) if a.raised else None):
             A = np.asarray(s)
@@ -322,7 +324,10 @@ def run(ctx):
         if exp['tkind'] == 'two':
             ctx.note('two time channels: ' + ('raises' if a.raised else 'returns') + ' (excepted by the statement)')
         elif exp['time_col'] is not None and exp['N'] == 0:
-            ctx.note('zero events with a time channel (duration not judged)')
+            # no event to read the time channel from: which fallback applies is not stated, but "without raising" is
+            ctx.note('zero events with a time channel (value of the duration not judged, only that it does not raise)')
+            ctx.check(not a.raised, 'duration-raises', cid, exc=core.exc_str(a.exc) if a.raised else None,
+                      time_channel=exp['tkind'], time_step=ts, events=0, **desc)
         else:
             want = 'absent'
             if exp['time_col'] is not None and ts is not None:
